@@ -249,8 +249,6 @@ theorem bodyForm_nil (n : Bool) (pl : Nat) (g : List Char) (hg : g.all Char.isDi
   · simp [hm]
 
 
-theorem foldMant_mono_init (m : Nat) (ds : List Char) : m ≤ foldMant m ds := foldMant_ge m ds
-
 theorem bodyForm_dot (n : Bool) (pl : Nat) (g fp : List Char) (hg : g.all Char.isDigit = true) :
     bodyForm n pl g ('.' :: fp) =
       if bWF (g ++ '.' :: fp) = true ∧ bRep (g ++ '.' :: fp) = true then some (bDec n (g ++ '.' :: fp)) else none := by
